@@ -29,7 +29,12 @@
 EXTENDS PropsWorld
 
 CONSTANTS KeyBytes(_),       \* registry-key bytes of an asset identifier (denom bytes / canonical address bytes)
-          AddrOfIndex(_)     \* address given to the n-th instantiated contract
+          AddrOfIndex(_),    \* address given to the n-th instantiated contract
+          LEGACY             \* defects of the original code to re-introduce (normally {}):
+                             \*   "R1" cw20 swap hook does not tie the named asset to the sending token
+                             \*   "R2" decimals re-registration reaches only the first LegacyPage pairs
+                             \*   "R3" factory lookup answers by key alone (used by the registry models)
+LegacyPage == 2
 
 RFail(why)      == [ok |-> FALSE, why |-> why]
 ROk(w, evs)     == [ok |-> TRUE, why |-> "", w |-> w, events |-> evs]
@@ -214,7 +219,7 @@ PairHandle(w, caller, p, funds, m) ==
                 IF m.hook.offer.amount # m.amount THEN RFail("err:Asset mismatch")
                 ELSE IF ~PoolsReadable(w, p) THEN RFail("err:other")
                 ELSE IF ~((~pr.a0.native /\ pr.a0.id = caller) \/ (~pr.a1.native /\ pr.a1.id = caller)) THEN RFail("err:Unauthorized")
-                ELSE IF m.hook.offer.info # Token(caller) THEN RFail("err:Asset mismatch")
+                ELSE IF "R1" \notin LEGACY /\ m.hook.offer.info # Token(caller) THEN RFail("err:Asset mismatch")
                 ELSE PairSwapBody(w, p, funds, m.sender, m.hook.offer, m.hook.bp, m.hook.ms, m.hook.to)
             ELSE IF m.hook.kind = "withdraw" THEN
                 IF caller # pr.lp THEN RFail("err:Unauthorized")
@@ -297,10 +302,12 @@ FacHandle(w, caller, m) ==
             ELSE LET nat2 == IF existed THEN [fa.native EXCEPT ![m.denom] = m.decimals] ELSE fa.native @@ (m.denom :> m.decimals)
                      hit0(e) == e.a0 = Native(m.denom)
                      hit1(e) == e.a1 = Native(m.denom)
+                     reached(i) == "R2" \notin LEGACY \/ i <= LegacyPage
                      reg2 == IF existed
                              THEN [i \in DOMAIN fa.reg |->
-                                     [fa.reg[i] EXCEPT !.d0 = IF hit0(fa.reg[i]) THEN m.decimals ELSE @,
-                                                       !.d1 = IF hit1(fa.reg[i]) THEN m.decimals ELSE @]]
+                                     IF ~reached(i) THEN fa.reg[i]
+                                     ELSE [fa.reg[i] EXCEPT !.d0 = IF hit0(fa.reg[i]) THEN m.decimals ELSE @,
+                                                            !.d1 = IF hit1(fa.reg[i]) THEN m.decimals ELSE @]]
                              ELSE fa.reg
                      \* one update message per matching position, carrying the factory's own view of the other decimals
                      msgOf(e) == (IF hit0(e) THEN <<Wasm(e.pair, [op |-> "update_decimals", denom |-> m.denom,
@@ -308,7 +315,7 @@ FacHandle(w, caller, m) ==
                                  \o (IF hit1(e) THEN <<Wasm(e.pair, [op |-> "update_decimals", denom |-> m.denom,
                                                                   decimals |-> <<e.d0, m.decimals>>], <<>>)>> ELSE <<>>)
                      RECURSIVE Msgs(_)
-                     Msgs(i) == IF i > Len(fa.reg) THEN <<>> ELSE msgOf(fa.reg[i]) \o Msgs(i + 1)
+                     Msgs(i) == IF i > Len(fa.reg) \/ ~reached(i) THEN <<>> ELSE msgOf(fa.reg[i]) \o Msgs(i + 1)
                  IN  HOk([w EXCEPT !.fac.native = nat2, !.fac.reg = reg2],
                          IF existed THEN Msgs(1) ELSE <<>>,
                          [action |-> "add_allow_native_token", contract |-> fa.addr])
